@@ -97,6 +97,31 @@ func ruleAssignPhases(c *Ctx) {
 			}
 			ok1 := cnt["R"] > 0 && cnt["S"] > 0 && maxPos["R"] < minPos["S"] && (cnt["L"] == 0 || (maxPos["L"] < minPos["R"]))
 			c.Ob("P1-assign-phases", key, fl, ok1, fmt.Sprintf("left operands (%d calls) before right-hand expressions (%d) before stores (%d)", cnt["L"], cnt["R"], cnt["S"]))
+			// P1o: within a class, operands addressed by a constant index are used in index order
+			// (targets are stored left to right, expressions are evaluated left to right)
+			for _, class := range []string{"L", "R", "S"} {
+				last, lastPos, inOrder, seen := int64(-1), token.NoPos, true, 0
+				for _, e := range evs {
+					if e.class != class {
+						continue
+					}
+					k, ok := constIndexIn(info, e.call.Fun)
+					if !ok {
+						continue
+					}
+					seen++
+					if e.pos > lastPos {
+						if k < last {
+							inOrder = false
+						}
+						last, lastPos = k, e.pos
+					}
+				}
+				if seen >= 2 {
+					what := map[string]string{"L": "left operands are evaluated", "R": "right-hand expressions are evaluated", "S": "targets are stored"}[class]
+					c.Ob("P1-assign-order", key+"/"+class, fl, inOrder, what+" left to right (by their constant index)")
+				}
+			}
 			// P2: right-hand values produced by single-value closures are copied with dup()
 			for _, e := range evs {
 				if e.class != "R" {
@@ -458,4 +483,19 @@ func assignedToken(info *types.Info, b *ast.BlockStmt) string {
 		return ""
 	}
 	return objQName(usedObj(info, as.Rhs[0]))
+}
+
+// constIndexIn returns the constant index of the first index expression met while descending through
+// selectors and parentheses of e (assign[1].setvar, efuns[0], setvars[1]).
+func constIndexIn(info *types.Info, e ast.Expr) (int64, bool) {
+	for {
+		switch x := unparen(e).(type) {
+		case *ast.SelectorExpr:
+			e = x.X
+		case *ast.IndexExpr:
+			return constInt(info, x.Index)
+		default:
+			return 0, false
+		}
+	}
 }
